@@ -476,6 +476,12 @@ func (m *Machine) fsIntrinsic(name string, args []Val) (Val, bool) {
 		fs := m.needFS()
 		p := m.goString(args[0], name)
 		m.step(true, "readfile "+fileClass(p))
+		if m.faultRead > 0 {
+			m.faultRead--
+			if m.faultRead == 0 {
+				return Tuple{Slice{isNil: true}, mkErr("eio", "read "+p+": input/output error")}, true
+			}
+		}
 		ino := fs.dir[p]
 		if ino == nil {
 			return Tuple{Slice{isNil: true}, mkErr("notexist", "open "+p+": no such file or directory")}, true
